@@ -9,7 +9,7 @@ from ..core import Result, cli, scrub_env
 from .. import ser
 
 ID = 'C20'
-SIZES = {'quick': 600, 'thorough': 40000}
+SIZES = {'quick': 600, 'thorough': 120000}
 REQUIRED_EVENTS = ['args_passed_through', 'args_rewritten', 'failed_evaluations_blocked']
 RULE = ('argument vectors of 0-8 arguments mixing flags, --opt=value (also --opt=<layer file>), plain words, empty and unicode strings, names of '
         'non-bkl files, existing layer files with parents, virtual names resolving to a layer of another format (also two names for the same '
